@@ -35,8 +35,9 @@ type hExpr struct {
 }
 
 type hResult struct {
+	internal map[string]bool // keys of cfg that are tool-internal (File == false)
 	name   string
-	cfg    [][2]string // file configuration in Config order
+	cfg    [][2]string // configuration in Config order (file unless listed in internal)
 	units  []string
 	cfgMap map[string]string
 }
@@ -46,7 +47,7 @@ var hCfgVals = map[string][]string{
 	"goos":   {"linux", "darwin", "windows", "plan9"},
 	"goarch": {"amd64", "arm64", "386"},
 	"pkg":    {"p/a", "p/b", "p/c"},
-	"cpu":    {"1", "2", "10", "1k", "1Ki", "2M", "1500", "NaN", "inf", "abc", "zed", "3Gi", "1Zi", "1Yi", "2Z", "5.5", "0.5k", "999999999.5", "1000000000", "9.999999994e-1", "1e0", "1.0000000006", "4", "8"},
+	"cpu":    {"1", "2", "10", "1k", "1Ki", "2M", "1500", "NaN", "inf", "abc", "zed", "3Gi", "1Zi", "1Yi", "2Z", "5.5", "0.5k", "999999999.5", "1000000000", "9.999999994e-1", "1e0", "1.0000000006", "4", "8", "010", "0100", "007", "08", "012k"},
 	"note":   {"base", "opt", "opt2", "x y", "zz"},
 	"commit": {"c1", "c2", "c3", "c4", "c5", "c6"},
 }
@@ -55,7 +56,7 @@ var hShared = []string{"4", "8", "16", "x"}
 
 var hSubKeys = []string{"size", "align", "poly", "fmt", "size2", "al"}
 var hSubVals = map[string][]string{
-	"size":  {"1", "2", "10", "100", "1k", "1Ki", "64", "1M", "abc", "NaN"},
+	"size":  {"1", "2", "10", "100", "1k", "1Ki", "64", "1M", "abc", "NaN", "010", "0100"},
 	"align": {"0", "1", "2"},
 	"poly":  {"IEEE", "Castagnoli", "Koopman"},
 	"fmt":   {"json", "gob", "xml"},
@@ -66,7 +67,7 @@ var hBases = []string{"Encode", "Decode", "Sort", "CRC"}
 var hUnits = []string{"sec/op", "B/op", "allocs/op", "B/s", "widgets"}
 
 func hGenResult(T *sim.Tape, universe int, nsub int) *hResult {
-	res := &hResult{cfgMap: map[string]string{}}
+	res := &hResult{cfgMap: map[string]string{}, internal: map[string]bool{}}
 	// the key universe grows: only the first `universe` file keys may appear
 	perm := T.Perm(universe, "cfgorder")
 	for _, i := range perm {
@@ -88,6 +89,9 @@ func hGenResult(T *sim.Tape, universe int, nsub int) *hResult {
 		}
 		res.cfg = append(res.cfg, [2]string{k, v})
 		res.cfgMap[k] = v
+		if T.Intn(10, "internal") == 0 {
+			res.internal[k] = true // e.g. a tool called SetConfig: visible to a plain key, never part of .config
+		}
 	}
 	name := sim.Pick(T, hBases, "base")
 	sp := T.Perm(nsub, "suborder")
@@ -116,7 +120,7 @@ func hGenResult(T *sim.Tape, universe int, nsub int) *hResult {
 func (h *hResult) toResult() *benchfmt.Result {
 	r := &benchfmt.Result{Name: benchfmt.Name(h.name), Iters: 1}
 	for _, kv := range h.cfg {
-		r.Config = append(r.Config, benchfmt.Config{Key: kv[0], Value: []byte(kv[1]), File: true})
+		r.Config = append(r.Config, benchfmt.Config{Key: kv[0], Value: []byte(kv[1]), File: !h.internal[kv[0]]})
 	}
 	for i, u := range h.units {
 		r.Values = append(r.Values, benchfmt.Value{Value: float64(i + 1), Unit: u})
@@ -337,7 +341,7 @@ func hGenExprs(T *sim.Tape) []hExpr {
 	return exprs
 }
 
-func hNewInstance(r *sim.Run, exprs []hExpr, order []int) *hInstance {
+func hNewInstance(r *sim.Run, exprs []hExpr, order []int, resEarly int) *hInstance {
 	inst := &hInstance{parser: new(ProjectionParser), order: order}
 	f, err := NewFilter("*")
 	if err != nil {
@@ -345,7 +349,38 @@ func hNewInstance(r *sim.Run, exprs []hExpr, order []int) *hInstance {
 	}
 	inst.filter = f
 	inst.projs = make([]*hProj, len(exprs))
-	for _, i := range order {
+	residueAt := len(order)
+	if resEarly >= 0 && resEarly < len(order) {
+		residueAt = resEarly
+	}
+	takeResidue := func(parsedSoFar []int) {
+		// residue model: the groups not projected by the expressions parsed so far
+		var re hExpr
+		haveCfg, haveFull := false, false
+		for _, i := range parsedSoFar {
+			for _, f := range exprs[i].fields {
+				if f.key == ".config" {
+					haveCfg = true
+				}
+				if f.key == ".fullname" {
+					haveFull = true
+				}
+			}
+		}
+		if !haveCfg {
+			re.fields = append(re.fields, hField{key: ".config", order: "first"})
+		}
+		if !haveFull {
+			re.fields = append(re.fields, hField{key: ".fullname", order: "first"})
+		}
+		re.text = "<residue>"
+		inst.residue = newHProj(re)
+		inst.residue.proj = inst.parser.Residue()
+	}
+	for oi, i := range order {
+		if oi == residueAt {
+			takeResidue(order[:oi])
+		}
 		e := exprs[i]
 		hp := newHProj(e)
 		var err error
@@ -359,28 +394,9 @@ func hNewInstance(r *sim.Run, exprs []hExpr, order []int) *hInstance {
 		}
 		inst.projs[i] = hp
 	}
-	// residue model: the groups not projected anywhere
-	var re hExpr
-	haveCfg, haveFull := false, false
-	for _, e := range exprs {
-		for _, f := range e.fields {
-			if f.key == ".config" {
-				haveCfg = true
-			}
-			if f.key == ".fullname" {
-				haveFull = true
-			}
-		}
+	if residueAt >= len(order) {
+		takeResidue(order)
 	}
-	if !haveCfg {
-		re.fields = append(re.fields, hField{key: ".config", order: "first"})
-	}
-	if !haveFull {
-		re.fields = append(re.fields, hField{key: ".fullname", order: "first"})
-	}
-	re.text = "<residue>"
-	inst.residue = newHProj(re)
-	inst.residue.proj = inst.parser.Residue()
 	return inst
 }
 
@@ -441,6 +457,9 @@ func (hp *hProj) tuple(w *hWorld, h *hResult, unit string) []string {
 			continue
 		}
 		for _, kv := range h.cfg {
+			if h.internal[kv[0]] {
+				continue
+			}
 			if !hp.cfgSeen[kv[0]] && !w.cfgSpecific[kv[0]] {
 				hp.cfgSeen[kv[0]] = true
 				hp.cfgOrder = append(hp.cfgOrder, kv[0])
@@ -451,7 +470,11 @@ func (hp *hProj) tuple(w *hWorld, h *hResult, unit string) []string {
 	for _, f := range hp.expr.fields {
 		if f.key == ".config" {
 			for _, k := range hp.cfgOrder {
-				out = append(out, h.cfgMap[k])
+				if h.internal[k] {
+					out = append(out, "") // internal configuration is not file configuration
+				} else {
+					out = append(out, h.cfgMap[k])
+				}
 			}
 			continue
 		}
@@ -746,7 +769,13 @@ func hRun(t *testing.T, r *sim.Run, prop string) {
 	}
 	var insts []*hInstance
 	for _, o := range orders {
-		insts = append(insts, hNewInstance(r, exprs, o))
+		// Residue() is normally taken last; now and then earlier (all parsing still precedes all projecting)
+		resEarly := -1
+		if T.Intn(5, "residue-early") == 0 {
+			resEarly = T.Intn(len(o)+1, "residue-at")
+			r.Hit("Residue() taken before a later Parse")
+		}
+		insts = append(insts, hNewInstance(r, exprs, o, resEarly))
 	}
 	for i, e := range exprs {
 		r.Logf("expr %d: %q unit=%v", i, e.text, e.unit)
@@ -768,6 +797,11 @@ func hRun(t *testing.T, r *sim.Run, prop string) {
 		}
 		var h *hResult
 		h = hGenResult(T, universe, nsub)
+		for k := range h.internal {
+			if w.cfgSpecific[k] {
+				delete(h.internal, k) // tool-internal values only on keys that fall into the .config group (the statement speaks of file configuration)
+			}
+		}
 		lastH = h
 		r.Logf("result %d: %q cfg=%v units=%v", ri, h.name, h.cfg, h.units)
 		for ii, inst := range insts {
@@ -834,7 +868,82 @@ func hRun(t *testing.T, r *sim.Run, prop string) {
 	}
 	primary := insts[0]
 	all := append(append([]*hProj(nil), primary.projs...), primary.residue)
+	coldTail := func() {
+		if lastH != nil && T.Bool("cold-tail") {
+			// one more result: the previous one again plus a never-seen file key with an explicitly
+			// empty value. It adds a .config sub-field but maps onto existing keys, so whatever the
+			// projections build lazily for their field list is cold when the sorters start.
+			h := *lastH
+			h.cfg = append(append([][2]string(nil), lastH.cfg...), [2]string{"zlast", ""})
+			r.Logf("tail result: %q cfg=%v", h.name, h.cfg)
+			c := &hCheck{r: r, prop: "tail"} // no API reads here: they would rebuild what must stay cold
+			res := h.toResult()
+			if ok, _ := primary.filter.Apply(res); ok {
+				for _, hp := range all {
+					if hp.expr.unit {
+						for vi, k := range hp.proj.ProjectValues(res) {
+							hp.observe(c, w, &h, k, res.Values[vi].Unit)
+						}
+					} else {
+						hp.observe(c, w, &h, hp.proj.Project(res), "")
+					}
+				}
+			}
+			r.Hit("field added by a result that maps onto existing keys")
+		}
+	}
 	if prop == "C08" {
+		// concurrent readers after all projecting is done (documented as safe): NonSingularFields, Key.String and
+		// Key.Get from several tasks at once must give what they give sequentially
+		type seen struct{ nsf, str []string }
+		var got []*seen
+		if T.Intn(3, "concurrent-lane") == 0 {
+			coldTail()
+			ntask := 2 + T.Intn(2, "ntasks")
+			r.Bubble(t, 100000, func(s *sim.Sched) {
+				for ti := 0; ti < ntask; ti++ {
+					res := &seen{}
+					got = append(got, res)
+					s.Go(fmt.Sprintf("reader%d", ti), 1, func() {
+						for _, hp := range all {
+							var names []string
+							for _, f := range NonSingularFields(hp.keys) {
+								names = append(names, f.Name)
+							}
+							res.nsf = append(res.nsf, strings.Join(names, ","))
+							var strs []string
+							for _, k := range hp.keys {
+								strs = append(strs, k.String())
+							}
+							res.str = append(res.str, strings.Join(strs, "|"))
+						}
+					})
+				}
+				s.Loop()
+			})
+			r.Hit("keys read concurrently by several tasks")
+			for ti, g := range got {
+				for pi, hp := range all {
+					if pi >= len(g.nsf) {
+						r.Fail("nonsingular", "concurrent-read-incomplete", "task %d did not finish", ti)
+					}
+					var names []string
+					for _, f := range NonSingularFields(hp.keys) {
+						names = append(names, f.Name)
+					}
+					var strs []string
+					for _, k := range hp.keys {
+						strs = append(strs, k.String())
+					}
+					if g.nsf[pi] != strings.Join(names, ",") {
+						r.Fail("nonsingular", "concurrent-read-differs", "projection %q: NonSingularFields called by task %d concurrently with other readers gave [%s], sequentially [%s]", hp.expr.text, ti, g.nsf[pi], strings.Join(names, ","))
+					}
+					if g.str[pi] != strings.Join(strs, "|") {
+						r.Fail("key-get", "concurrent-string-differs", "projection %q: Key.String called by task %d concurrently with other readers gave %q, sequentially %q", hp.expr.text, ti, g.str[pi], strings.Join(strs, "|"))
+					}
+				}
+			}
+		}
 		// (2) again at the end: keys made before the field set grew
 		for _, inst := range insts {
 			c := &hCheck{r: r, prop: prop, label: fmt.Sprintf("[parse order %v]", inst.order)}
@@ -883,28 +992,7 @@ func hRun(t *testing.T, r *sim.Run, prop string) {
 		type sorted struct{ seq [][]Key }
 		var got []*sorted
 		if T.Intn(3, "concurrent-lane") == 0 {
-			if lastH != nil && T.Bool("cold-tail") {
-				// one more result: the previous one again plus a never-seen file key with an explicitly
-				// empty value. It adds a .config sub-field but maps onto existing keys, so whatever the
-				// projections build lazily for their field list is cold when the sorters start.
-				h := *lastH
-				h.cfg = append(append([][2]string(nil), lastH.cfg...), [2]string{"zlast", ""})
-				r.Logf("tail result: %q cfg=%v", h.name, h.cfg)
-				c := &hCheck{r: r, prop: prop}
-				res := h.toResult()
-				if ok, _ := primary.filter.Apply(res); ok {
-					for _, hp := range all {
-						if hp.expr.unit {
-							for vi, k := range hp.proj.ProjectValues(res) {
-								hp.observe(c, w, &h, k, res.Values[vi].Unit)
-							}
-						} else {
-							hp.observe(c, w, &h, hp.proj.Project(res), "")
-						}
-					}
-				}
-				r.Hit("field added by a result that maps onto existing keys")
-			}
+			coldTail()
 			ntask := 2 + T.Intn(2, "ntasks")
 			r.Bubble(t, 100000, func(s *sim.Sched) {
 				for ti := 0; ti < ntask; ti++ {
@@ -957,7 +1045,7 @@ func hRun(t *testing.T, r *sim.Run, prop string) {
 func sortedCfg(h *hResult) []string {
 	var out []string
 	for k, v := range h.cfgMap {
-		if v != "" { // a missing value counts as empty
+		if v != "" && !h.internal[k] { // a missing value counts as empty; internal configuration is not file configuration
 			out = append(out, k+"="+v)
 		}
 	}
